@@ -419,6 +419,7 @@ pub fn exec(plan: &ConcPlan) -> RunOut {
     }
     if so.os_blocked > 0 {
         out.add("probe.thread_blocked_on_unknown_os_primitive", so.os_blocked);
+        out.timing_dependent = true;
     }
     let overlapped = done.iter().any(|a| done.iter().any(|b| a.tid != b.tid && a.inv < b.ret && b.inv < a.ret));
     if overlapped {
